@@ -19,7 +19,8 @@ FACT_VALUES = {
     "pow2": lambda r, k: float(2 ** (r + 3 * k)),
     "mixed": lambda r, k: [0.0, -3.0, 5.0, 9.0, -17.0][(r + 2 * k) % 5],
 }
-POS_W = [0.5, 1.0, 2.0, 4.0, 8.0]  # row-specific positive weights (symbol 'P')
+POS_W = [0.5, 1.0, 2.0, 4.0, 8.0]  # row-specific positive weights (symbol 'P'): exactly representable
+DEC_W = [0.1, 0.2, 0.3, 0.7, 1.1]  # symbol 'D': sums that do NOT cancel exactly in binary floating point (0.1 + 0.2 != 0.3)
 
 
 def make_fact(N, K, values_id, pattern, form):
@@ -70,6 +71,8 @@ def make_weights(N, spec):
     for r, s in enumerate(syms):
         if s == "P":
             w.append(POS_W[r % len(POS_W)]); ok.append(True)
+        elif s == "D":
+            w.append(DEC_W[r % len(DEC_W)]); ok.append(True)
         elif s == "1":
             w.append(1.0); ok.append(True)
         elif s == "Z":
@@ -100,6 +103,12 @@ def weight_specs(N, level):
                 t = list(base); t[i] = "Z"; seen.add(tuple(t))
         seen.add(tuple("Z" * N))
         out += [("array", s, "nan") for s in sorted(seen)]
+    if level >= 1:
+        # decimal weights: marginal differencing leaves rounding residue in reconstructed cells
+        out.append(("array", tuple("D" * N), "nan"))
+        for i in range(N):
+            t = list("D" * N); t[i] = "M"
+            out.append(("array", tuple(t), "nan"))
     if level >= 3:
         out += [("array", s, "pair-nan") for s in itertools.product("PZM", repeat=N) if "M" in s][: 3 ** N]
         out += [("array", s, "pair-huge") for s in itertools.product("PM", repeat=N) if "M" in s]
